@@ -68,7 +68,7 @@ def run(ctx):
         if len(ev) - 1 < want:
             raise vlib.ToolError("replay executed %d operations for %d transitions" % (len(ev) - 1, want))
         ctx.distinct += len(ev) - 1
-        if not any(e["op"] == "commit" and e["events"] == 1 for e in ev):
+        if not fails and not any(e["op"] == "commit" and e["events"] == 1 for e in ev):
             raise vlib.ToolError("vacuity: no commit emitted its MarketStateUpdated event")
         ctx.cov["samples"] += [{k: v for k, v in ev[min(len(ev) - 1, 9)].items() if k not in ("storage", "slot_revs")}]
         for f in fails[:100]:      # the first failures are enough to decide and to replay
@@ -81,7 +81,7 @@ def run(ctx):
     fails, drifts, _ = ctx.validate_trace("Trace_Revertible", tr, timeout=2400, heap="6g")
     ev = vlib.read_ndjson(tr)
     slots_written = {(e["slot"], e["field"]) for e in ev if e["op"] == "write"}
-    if not any(e["op"] == "commit" and e["tok"] for e in ev) or not any(e["op"] == "abandon" for e in ev):
+    if not fails and (not any(e["op"] == "commit" and e["tok"] for e in ev) or not any(e["op"] == "abandon" for e in ev)):
         raise vlib.ToolError("vacuity: no commit with deferred mint/burn or no abandoned operation in the random histories")
     ctx.cov["slot_fields_written"] = len(slots_written)
     ctx.distinct += len({(e["op"], e["slot"], e["field"], e["fv"], vlib.json.dumps(e["val"]), e["rev"]) for e in ev})
